@@ -26,6 +26,11 @@ AllWithin(type, rows, p, p2) == \A i \in 1..Len(rows) : Within(type, rows[i][1],
 \* soundness: success => all within
 Sound(type, rows, p, p2, success) == success => AllWithin(type, rows, p, p2)
 SelfCompare(rows) == \A i \in 1..Len(rows) : rows[i][1] = rows[i][2] /\ Finite(rows[i][1])
+\* a .check file holds several comparisons (each possibly under its own @TestType / @Precision): the verdict of the file - the
+\* line "end of test ... [SUCCESS]" and, through it, the exit status of tfel-check - may be a success only if every one of its
+\* comparisons may; a file of self comparisons succeeds
+FileSound(cs, success) == success => \A i \in 1..Len(cs) : AllWithin(cs[i].type, cs[i].rows, cs[i].p, cs[i].p2)
+FileSelf(cs) == \A i \in 1..Len(cs) : SelfCompare(cs[i].rows)
 Values == {-4, -2, -1, 0, 1, 2, 4, NaN, PInf, NInf}
 Precs == {0, 1, 2, 4, 8}
 Precs2 == {0, 2, 8}
